@@ -208,6 +208,61 @@ pub fn run(ctx: &Ctx, ev: &mut Ev) {
             if !s.is_empty() { ev.nontrivial_hash(H::new().b(&s).u(sa as u64).u(3).get()); }
         }
     }
+    // (f) String / Vec receivers with long existing contents and spare capacity on both sides of one and two pages
+    // (the receivers pre-touch their spare capacity page by page): no reallocation, existing contents untouched,
+    // growth within the spare capacity; under ASan the heap red zones watch the end of the allocation
+    if ctx.want("bigsink") && !tiny {
+        let mut r = ctx.rng(66);
+        let plens = [0usize, 1, 4095, 4096, 4097, 8191, 8192, 9001];
+        let spares = [4usize, 14, 100, 4095, 4096, 4097, 8192, 12289];
+        for &enc in ALL.iter() {
+            for &plen in plens.iter() { for &spare in spares.iter() {
+                if !ev.mine() { continue; }
+                let tr = ev.case();
+                let mut stream: Vec<u8> = vec![];
+                let want = [spare / 3, spare, spare * 2][r.below(3)].max(8);
+                while stream.len() < want { let seg = random_stream(&mut r, enc, 6); if seg.is_empty() { stream.push(0x61); } else { stream.extend_from_slice(&seg); } }
+                stream.truncate(want);
+                let desc = format!("enc={} existing={} spare={} stream={} bytes", enc.name(), plen, spare, stream.len());
+                if tr { println!("TRACE bigsink {} stream={}", desc, hex(&stream)); }
+                let mut text = String::new();
+                for repl in [true, false] {
+                    let mut s = String::with_capacity(plen + spare);
+                    while s.len() + 3 <= plen { s.push('\u{20AC}'); } while s.len() < plen { s.push('p'); }
+                    while s.capacity() - s.len() > spare { s.push('p'); }
+                    let (ptr, capacity, pl) = (s.as_ptr() as usize, s.capacity(), s.len());
+                    let pre = s.clone().into_bytes();
+                    let mut d = enc.new_decoder_without_bom_handling();
+                    let res = catch_unwind(AssertUnwindSafe(|| { if repl { d.decode_to_string(&stream, &mut s, true).1 } else { d.decode_to_string_without_replacement(&stream, &mut s, true).1 } }));
+                    ev.api_calls += 1; ev.count("contract.bigsink-calls");
+                    let key = format!("bigsink:{}:{}", crate::c01::family(enc), if repl { "decode_to_string" } else { "decode_to_string_without_replacement" });
+                    if let Err(e) = &res { ev.violation("panic", &key, format!("panicked: {} | {}", panic_message(e), desc)); }
+                    if s.as_ptr() as usize != ptr || s.capacity() != capacity { ev.violation("realloc", &key, format!("String reallocated (capacity {} -> {}) | {}", capacity, s.capacity(), desc)); }
+                    else if s.len() < pl || s.as_bytes()[..pl] != pre[..] { let at = s.as_bytes().iter().zip(pre.iter()).position(|(a, b)| a != b); ev.violation("realloc", &format!("{}:existing-contents", key), format!("existing String contents altered (first difference at byte {:?}, length {} -> {}) | {}", at, pl, s.len(), desc)); }
+                    if std::str::from_utf8(s.as_bytes()).is_err() { ev.count("foreign.invalid-str(C05)"); }
+                    if repl && res.is_ok() && s.len() >= pl { text = String::from_utf8_lossy(&s.as_bytes()[pl..]).into_owned(); }
+                }
+                if text.is_empty() { text = "a\u{E9}\u{3042}\u{1F4A9}".repeat(1 + spare / 20); }
+                for api in 0..2 {
+                    if api == 0 && spare < 14 { continue; }
+                    let mut v: Vec<u8> = Vec::with_capacity(plen + spare);
+                    for i in 0..plen { v.push((i * 7 + 3) as u8); }
+                    while v.capacity() - v.len() > spare { v.push(0x5A); }
+                    let (ptr, capacity, pl) = (v.as_ptr() as usize, v.capacity(), v.len());
+                    let pre = v.clone();
+                    let mut e = enc.new_encoder();
+                    let res = catch_unwind(AssertUnwindSafe(|| match api { 0 => { e.encode_from_utf8_to_vec(&text, &mut v, true); } _ => { e.encode_from_utf8_to_vec_without_replacement(&text, &mut v, true); } }));
+                    ev.api_calls += 1; ev.count("contract.bigsink-calls");
+                    let key = format!("bigsink:{}:{}", crate::c01::ofam(enc), ["encode_from_utf8_to_vec", "encode_from_utf8_to_vec_without_replacement"][api]);
+                    // with replacement the documented minimum is room for one numeric character reference plus one character
+                    if let Err(er) = &res { ev.violation("panic", &key, format!("panicked: {} | {}", panic_message(er), desc)); }
+                    if v.as_ptr() as usize != ptr || v.capacity() != capacity { ev.violation("realloc", &key, format!("Vec reallocated (capacity {} -> {}) | {}", capacity, v.capacity(), desc)); }
+                    else if v.len() < pl || v[..pl] != pre[..] { let at = v.iter().zip(pre.iter()).position(|(a, b)| a != b); ev.violation("realloc", &format!("{}:existing-contents", key), format!("existing Vec contents altered (first difference at byte {:?}, length {} -> {}) | {}", at, pl, v.len(), desc)); }
+                }
+                ev.nontrivial_enum();
+            } }
+        }
+    }
 }
 
 /// Dedicated small workload for the UB interpreter (about 0.2-0.7 s per call): the same monitors, a few hundred calls per shard.
